@@ -44,6 +44,8 @@ def write_evidence(prop, tier, seed, meta, ded, bounded, violations, known_hit, 
         "trusted_base": (ded or {}).get("trusted_base", []) + ["z3 4.8/5.1 and cvc5 as SMT back ends",
                                                               "qvc symbolic executor (vf/qvc) incl. its built-in semantics table"],
         "lemmas": (ded or {}).get("lemmas", {}),
+        "second_backend": (ded or {}).get("second_backend"),
+        "lean_recheck": (ded or {}).get("lean_recheck"),
         "canaries_failed_as_expected": (ded or {}).get("canaries_ok", 0),
         "canaries_total": (ded or {}).get("canaries_total", 0),
         "vacuity_queries": (ded or {}).get("vacuity_queries", 0),
